@@ -72,6 +72,41 @@ Definition same_origin_spec (a b : url) : bool :=
   let x := rfc_norm a in let y := rfc_norm b in
   beq (n_scheme x) (n_scheme y) && beq (n_host x) (n_host y) && beq (n_port x) (n_port y).
 
+(* ---------- the domain of the key theorems (Props/C03.v) ---------- *)
+(* every % is followed by two hex digits *)
+Fixpoint pct_wf (skip : nat) (s : bytes) : bool :=
+  match s with
+  | [] => true
+  | c :: r =>
+      match skip with
+      | S k => pct_wf k r
+      | O => if c =? 37 then match r with h1 :: h2 :: _ => is_hex h1 && is_hex h2 && pct_wf 2 r | _ => false end
+             else pct_wf 0 r
+      end
+  end.
+
+
+(* the host[:port] split both the key and the normal form use *)
+Definition hp_split (hp : bytes) : bytes * bytes :=
+  let colon := last_index 58 hp 0 (-1) in
+  if negb (colon =? -1) && valid_optional_port (drop colon hp) then (take colon hp, drop (colon + 1) hp) else (hp, []).
+
+(* well-formed host (after the port is split off): a reg-name, or an IP literal in brackets with a colon inside *)
+Definition host0_wf (h0 : bytes) : bool :=
+  match h0 with
+  | c :: r =>
+      if c =? 91 then has_suffix [93] r && forallb ip6_byte_ok (removelast r) && contains_byte 58 (removelast r)
+      else forallb host_byte_ok h0
+  | [] => true
+  end.
+
+Definition url_wf (u : url) : bool :=
+  (beq (u_scheme u) (bs "http") || beq (u_scheme u) (bs "https")) &&
+  host0_wf (fst (hp_split (u_host u))) && all_digits (snd (hp_split (u_host u))) &&
+  match u_path u with [] => true | c :: _ => c =? 47 end &&
+  pct_wf 0 (u_path u) && negb (contains_byte 63 (u_path u)).
+
+
 (* ---------- requests ---------- *)
 Definition plain_get (q : request) : bool :=
   is_get (q_method q) && beq (hget (bs "Range") (q_hdr q)) [].
